@@ -33,6 +33,11 @@ def copy_tree(repo, dst):
 
 def run_demo(tree, demo):
     env = dict(os.environ, PYTHONPATH=tree, PYTHONDONTWRITEBYTECODE='1')
+    # demonstrations may locate the tree relative to themselves (<tree>/_seed/<k>/demo.py)
+    place = os.path.join(tree, '_seed', 'k')
+    os.makedirs(place, exist_ok=True)
+    shutil.copy(demo, os.path.join(place, 'demo.py'))
+    demo = os.path.join(place, 'demo.py')
     try:
         r = subprocess.run(['/venv/bin/python', demo], cwd=tree, env=env, capture_output=True,
                            text=True, timeout=120)
